@@ -1347,19 +1347,31 @@ class Vector():
 	def __lshift__(self, other):
 		""" The << operator behavior has been overridden to attempt to concatenate (append) the new array to the end of the first
 		"""
-		if self._dtype.kind in (bool, int) and isinstance(other, int):
+		if self._dtype is not None and self._dtype.kind in (bool, int) and isinstance(other, int):
 			warnings.warn(f"The behavior of >> and << have been overridden for concatenation. Use .bitshift() to shift bits.")
 
+		def extended_dtype(appended):
+			# dtype of self after accommodating the appended values
+			# (an empty, untyped vector lets the result be inferred)
+			dtype = self._dtype
+			if dtype is None:
+				return None
+			for value in appended:
+				dtype = dtype.promote_with(value)
+			return dtype
+
 		if isinstance(other, Vector):
-			if not self._dtype.nullable and not other.schema().nullable and self._dtype.kind != other.schema().kind:
+			if (self._dtype is not None and other.schema() is not None
+					and not self._dtype.nullable and not other.schema().nullable and self._dtype.kind != other.schema().kind):
 				raise SerifTypeError("Cannot concatenate two typesafe Vectors of different types")
 			return Vector(self._underlying + other._underlying,
-				dtype=self._dtype)
+				dtype=extended_dtype(other._underlying))
 		if isinstance(other, Iterable) and not isinstance(other, (str, bytes, bytearray)):
-			return Vector(self._underlying + tuple(other),
-				dtype=self._dtype)
+			appended = tuple(other)
+			return Vector(self._underlying + appended,
+				dtype=extended_dtype(appended))
 		return Vector(self._underlying + (other,),
-				dtype=self._dtype)
+				dtype=extended_dtype((other,)))
 
 
 	def __rshift__(self, other):
